@@ -105,6 +105,32 @@ def run(tier, seed):
                                                                        sched=real["sched"])), real, "trace")
         lines.append(tc.to_trace(cfg, real))
         metas.append(sorted(plan))
+    # a run ended by an exception raised in a user callback (Train.tla, again = "abort"): no further event of that
+    # run; the next fit() on the same model and callback objects is a run like any other
+    for i in range(ntr // 3):
+        cfg, plan = random_cfg(rng)
+        cfg["again"], cfg["entryStop"] = "abort", False
+        k = rng.choice(["TS", "ES", "BS", "BE", "EE", "TE"])
+        ep = -1 if k in ("TS", "TE") else rng.randint(cfg["startEp"], cfg["startEp"] + 2)
+        b = rng.randint(0, 1) if k in ("BS", "BE") else -1
+        rz = ("RZ", k, ep, b, rng.randint(1, len(cfg["cbs"])))
+        plan.discard(rz[1:])          # the specification's environment does one thing per dispatch: request or raise
+        plan.add(rz)
+        real1 = trainrun.real_run(cfg, plan=plan, seed=rng.randrange(10 ** 6), k=rng.randint(0, 2),
+                                  time_flag=rng.random() < 0.3)
+        cfg2 = dict(cfg, again="no", entryStop=bool(real1["stop"]), epochs=cfg["epochs"] + rng.randint(0, 1))
+        plan2 = set(p for p in random_cfg(rng)[1] if p[3] <= len(cfg["cbs"]))
+        real2 = trainrun.real_run(cfg2, plan=plan2, seed=rng.randrange(10 ** 6), k=1, prev=real1,
+                                  time_flag=rng.random() < 0.3)
+        for c, r, pl in ((cfg, real1, plan), (cfg2, tc.rebased(real2, real1["pver"]), plan2)):
+            if r["error"] is not None:
+                chk.violation("trace:exception:" + type(r["error"]).__name__,
+                              dict(cfg=c, plan=sorted(pl), error=repr(r["error"]), after_abort=c is cfg2))
+                break
+            lines.append(tc.to_trace(c, r))
+            metas.append(sorted(pl))
+        if real1["aborted"]:
+            chk.nontriv(("aborted", i))
     # negative control: corrupt one recorded field of one trace
     import copy
     donor = next(ln for ln in lines if sum(1 for e in ln["ev"] if e["k"] == "BE") >= 2)
